@@ -126,21 +126,20 @@ def obsStr : Obs → String
   | .ticket w => s!"tk:{w}" | .ended => "ended" | .panicked => "panicked"
   | .killFail c => s!"killfail:c{c}" | .signalFail c g => s!"signalfail:c{c}:{g}" | .waitFail c => s!"waitfail:c{c}"
 
-/-- canonical trace: entries sorted within one timestamp (waiter wake-up order is scheduler detail) -/
+/-- maximal runs of consecutive ticket entries are sorted (several waiters on one flag are woken in registration order,
+    which the model's slot list need not reproduce); every other entry keeps its place, so WHEN a ticket resolves relative
+    to the signals, kills, hook calls and spawns of the same instant is part of the trace. The `ended` marker does not
+    interrupt a run: the harness can only log it after the fact, and the comparison strips it -/
+def sortTkRuns (l : List (Nat × String)) : List (Nat × String) :=
+  let flush (run : List (Nat × String)) : List (Nat × String) := (run.toArray.qsort (fun a b => a.1 < b.1 || (a.1 == b.1 && a.2 < b.2))).toList
+  let (out, run) := l.foldl (fun (acc : List (Nat × String) × List (Nat × String)) e =>
+    if e.2.startsWith "tk:" || e.2 == "ended" then (acc.1, acc.2 ++ [e]) else (acc.1 ++ flush acc.2 ++ [e], [])) ([], [])
+  out ++ flush run
+
+/-- canonical trace -/
 def traceStr (x : Sim) : String :=
   let entries := x.st.log.reverse.map (fun (t, o) => (t, obsStr o))
-  let rec groups (l : List (Nat × String)) (fuel : Nat) : List (List (Nat × String)) :=
-    match fuel, l with
-    | 0, _ => []
-    | _, [] => []
-    | f + 1, (t, o) :: r =>
-      let same := r.takeWhile (·.1 == t)
-      ((t, o) :: same) :: groups (r.dropWhile (·.1 == t)) f
-  let gs := groups entries (entries.length + 1)
-  let sorted := gs.map (fun g =>
-    let (tk, rest) := g.partition (fun e => e.2.startsWith "tk:")
-    rest ++ (tk.toArray.qsort (fun a b => a.2 < b.2)).toList)
-  let flat := sorted.flatten.map (fun (t, o) => s!"{t}:{o}")
+  let flat := (sortTkRuns entries).map (fun (t, o) => s!"{t}:{o}")
   let unres := x.st.waiters.filter (!·.resolved) |>.map (fun w => toString w.id)
   String.intercalate "|" (flat ++ ["unres:" ++ String.intercalate "," unres])
 
